@@ -25,6 +25,9 @@ pub enum G {
     Seq(Vec<G>),
     /// `value [body]`
     Side(Box<G>, Box<G>),
+    /// `[body] value` — only ever the right operand of a binary operator (a block in front of the first value
+    /// of a list or program is a shape the parser mishandles)
+    PreSide(Box<G>, Box<G>),
     /// `^~ e` (generated only as an arm inside a nested expression)
     Reapply(Box<G>),
     PrefixApply(String, Box<G>),
@@ -33,7 +36,7 @@ pub enum G {
 }
 
 fn is_atomic(e: &G) -> bool {
-    matches!(e, G::Atom(_) | G::Ident(_) | G::Nested(_))
+    matches!(e, G::Atom(_) | G::Ident(_) | G::Nested(_) | G::PreSide(_, _))
 }
 
 impl G {
@@ -58,7 +61,7 @@ impl G {
         match self {
             G::Atom(_) | G::Ident(_) => 1,
             G::Prefix(_, e) | G::Suffix(_, e) | G::Nested(e) | G::Reapply(e) | G::PrefixApply(_, e) | G::SuffixApply(e, _) | G::Access(e, _) => 1 + e.nodes(),
-            G::Bin(_, l, r) | G::Cond(_, l, r) | G::Side(l, r) | G::InfixApply(l, _, r) => 1 + l.nodes() + r.nodes(),
+            G::Bin(_, l, r) | G::Cond(_, l, r) | G::Side(l, r) | G::PreSide(l, r) | G::InfixApply(l, _, r) => 1 + l.nodes() + r.nodes(),
             G::SpaceList(v) | G::CommaList(v) | G::Seq(v) => 1 + v.iter().map(|e| e.nodes()).sum::<usize>(),
             G::Chain(arms, d) => 1 + arms.iter().map(|(_, c, a)| c.nodes() + a.nodes()).sum::<usize>() + d.as_ref().map(|e| e.nodes()).unwrap_or(0),
         }
@@ -124,6 +127,7 @@ impl G {
             }
             G::Seq(items) => items.iter().map(|i| i.seq_item()).collect::<Vec<_>>().join("\n\n"),
             G::Side(v, body) => format!("{} [{}]", v.op(), body.top()),
+            G::PreSide(body, v) => format!("[{}] {}", body.top(), v.op()),
             G::Reapply(e) => format!("^~ {}", e.op()),
             G::PrefixApply(name, e) => format!("{}` {}", name, e.op()),
             G::SuffixApply(e, name) => format!("{} `{}", e.op(), name),
@@ -134,7 +138,7 @@ impl G {
     /// binding strength the parser gives this node (its own priority table; smaller binds tighter)
     fn prio(&self) -> u32 {
         match self {
-            G::Atom(_) | G::Ident(_) | G::Nested(_) | G::Side(_, _) => 10,
+            G::Atom(_) | G::Ident(_) | G::Nested(_) | G::Side(_, _) | G::PreSide(_, _) => 10,
             G::Access(_, _) => 30,
             G::Suffix(op, _) => match *op {
                 "~~" => 40,
@@ -224,6 +228,7 @@ impl G {
             }
             G::Seq(items) => items.iter().map(|i| if matches!(i, G::Seq(_)) { i.op() } else { i.min() }).collect::<Vec<_>>().join("\n\n"),
             G::Side(v, body) => format!("{} [{}]", v.op(), body.min()),
+            G::PreSide(body, v) => format!("[{}] {}", body.min(), v.op()),
             G::Reapply(e) => format!("^~ {}", e.opm(600, false)),
             G::Prefix(op, e) if *op == "!!" || *op == "??" => format!("{}{}", op, e.opm(400, true)),
             // everything else as in the fully bracketed form
@@ -259,7 +264,7 @@ impl G {
                 l.idents(out);
                 r.idents(out)
             }
-            G::Bin(_, l, r) | G::Cond(_, l, r) | G::Side(l, r) => {
+            G::Bin(_, l, r) | G::Cond(_, l, r) | G::Side(l, r) | G::PreSide(l, r) => {
                 l.idents(out);
                 r.idents(out)
             }
@@ -601,6 +606,16 @@ impl<'a> Gen<'a> {
         G::bin("<~", cur, G::bin("..", G::num(a), G::num(b)))
     }
 
+    /// right operand of a binary operator; now and then a leaf with a side-effect block in front of it
+    fn right_operand(&mut self, budget: usize) -> G {
+        if self.cfg.w_side > 0 && budget >= 2 && self.rng.chance(1, 10) {
+            let body = self.expr(budget - 1);
+            let v = self.leaf();
+            return G::PreSide(Box::new(body), Box::new(v));
+        }
+        self.expr(budget)
+    }
+
     /// list-free expression
     fn scalar(&mut self, budget: usize) -> G {
         self.no_list += 1;
@@ -677,7 +692,8 @@ impl<'a> Gen<'a> {
             0 => {
                 let op = *self.rng.pick(&["+", "-", "*", "/", "//", "%", "**"]);
                 let (l, r) = self.split(budget);
-                G::bin(op, self.expr(l), self.expr(r))
+                let le = self.expr(l);
+                G::bin(op, le, self.right_operand(r))
             }
             1 => {
                 if self.rng.chance(1, 5) {
@@ -691,12 +707,14 @@ impl<'a> Gen<'a> {
             2 => {
                 let op = *self.rng.pick(&["<", "<=", ">", ">="]);
                 let (l, r) = self.split(budget);
-                G::bin(op, self.expr(l), self.expr(r))
+                let le = self.expr(l);
+                G::bin(op, le, self.right_operand(r))
             }
             3 => {
                 let op = *self.rng.pick(&["==", "!=", "=="]);
                 let (l, r) = self.split(budget);
-                G::bin(op, self.expr(l), self.expr(r))
+                let le = self.expr(l);
+                G::bin(op, le, self.right_operand(r))
             }
             4 => match self.rng.below(5) {
                 0 => G::Prefix("!!", Box::new(self.expr(budget - 1))),
